@@ -3,7 +3,7 @@ import json
 
 from . import c04
 from .. import gen, json_ref, model, rt
-from .c01 import SIZES_RULE
+from .c01 import SIZES_RULE, FO_RULE
 from ..core import Acc, Violation, guarded, run_hypothesis, shard_seed
 
 PROPERTY = 'C06'
@@ -13,7 +13,7 @@ RULE = ('the grids of C01 are dumped by hszinc in JSON mode and the text alone i
         'object / string with a known type prefix whose payload matches that kind\'s lexical form (independent reader '
         'json_ref, shares no code with hszinc), every string prefix agreeing with the model kind, Remove spelled per version, '
         'and the value read back equal to the model (numbers, quantities, coordinates to six decimals). Same for '
-        'dump_scalar. Non-trivial and distinct as C01.' + SIZES_RULE)
+        'dump_scalar. Non-trivial and distinct as C01.' + SIZES_RULE + FO_RULE)
 ASSUMPTIONS = ['lexical forms as pinned in DESIGN.md Appendix B', 'tolerance abs(a-b) <= 5e-7 + 1e-12|a| on float payloads only']
 FEATURES = {}
 EXHAUSTIVE_CLAIM = False
@@ -159,7 +159,10 @@ def check_after_failed_dump(case):
         txt = guarded('dump-raises-after-failed-dump', case, hszinc.dump, g, mode=hszinc.MODE_JSON)
         obj = strict_loads(txt)
         check_grid_shape(model.normalise(m), obj, case)
-        back = json_ref.read_document(obj)
+        try:
+            back = json_ref.read_document(obj)
+        except json_ref.JsonRefError as e:
+            raise Violation('not-conformant', case, 'after a failed dump: %s | text=%r' % (e, txt[:300]))
         d = model.diff(model.normalise(m), back[0], tol=True)
         if d:
             raise Violation('denotes-other-value', case, 'after a failed dump: %s' % d)
@@ -172,6 +175,7 @@ def plan(tier, seed, excl):
     t += [('catalogue-grids', {'shard': i, 'of': 2}) for i in range(2)]
     t += [('scalars', {'shard': i, 'n': 6000 if q else 80000}) for i in range(6)]
     t += [('sizes', {'shard': i, 'of': 8, 'tier': tier}) for i in range(8)]
+    t.append(('fixed-offset', {}))
     t += [('grids', {'shard': i, 'n': 2500 if q else 40000}) for i in range(16)]
     return t
 
@@ -216,6 +220,8 @@ def run(part, args, env):
             except Violation as v:
                 acc.violation(v)
         acc.exhaustive['every kind sample x every position x versions'] = True
+    elif part == 'fixed-offset':
+        rt.fixed_offset_part(acc, 'json', 'ref')
     elif part == 'sizes':
         from .c01 import sizes_part
         sizes_part(acc, args, check_doc)
@@ -244,6 +250,8 @@ def run(part, args, env):
 
 
 def replay(stage, case):
+    if case['kind'] == 'fixed-offset':
+        return rt.check_fixed_offset(case, 'json', 'ref')
     if case['kind'] == 'after-failed-dump':
         return check_after_failed_dump(case)
     if case['kind'] == 'scalar':
